@@ -707,6 +707,26 @@ pub fn prog_hostile(kind: u32) -> Program {
     finish("hostile", a, "")
 }
 
+/// every on-chip I/O register of one block is written with a set of byte values and read back, one register after
+/// the other, with the run loop's module update after every instruction (C15: whatever a guest stores into the
+/// peripheral registers - unimplemented clock selects, reserved bits - execution goes on or stops with an error)
+pub fn prog_io_storm(start: u32, count: u16) -> Program {
+    let mut a = Asm::new(BASE);
+    a.mov_l_imm(1, start);
+    a.mov_w_imm(6, count);
+    a.label("outer");
+    for v in [0x00u8, 0xff, 0x05, 0x0c, 0x80, 0x49, 0xe3, 0x1f] {
+        a.mov_b_imm(8, v);
+        a.mov_b_store_ind(8, 1);
+        a.mov_b_load_ind(1, 10);
+    }
+    a.adds(1, 1);
+    a.dec_w1(6);
+    a.bcc16(6, "outer");
+    epilogue(&mut a);
+    finish("io-storm", a, "")
+}
+
 /// idle program for the control-socket replay: counts until stopped
 pub fn prog_idle() -> Program {
     let mut a = Asm::new(BASE);
@@ -742,6 +762,8 @@ pub fn run_run_program(args: &Args) -> Result<()> {
         for k in 0..5 {
             v.push((prog_fail(k), 1000, false));
         }
+        v.push((prog_io_storm(0xffff20, 202), 20_000, false));
+        v.push((prog_io_storm(0xfee000, 256), 20_000, false));
         v
     } else { vec![
         (prog_io(9, &text, "alpha  beta\tgamma"), 100_000, false),
@@ -1056,6 +1078,18 @@ pub fn run_sock_replay(args: &Args) -> Result<()> {
                     schedule.extend(batches);
                 } else {
                     // random: long sequences, big batches (more than 16 lines in one poll), empty polls between
+                    if fuzz && k == nb + t {
+                        // register storm through control lines: every timer register x byte values, a poll each
+                        for reg in 0xffff80u32..=0xffff89 {
+                            for v in [0x00u8, 0x05, 0x0c, 0xff, 0x49, 0x04, 0x07, 0xe3] {
+                                schedule.push(vec![format!("u8:{:x}:{:x}", reg, v)]);
+                            }
+                        }
+                        let s = run_program(&prog, &elf_path, Some(&log), schedule, 400, 6, &mut rng, id)?;
+                        id = s.events;
+                        nh += 1;
+                        continue;
+                    }
                     let portmix = !fuzz && k % 3 == 0;
                     let nbatch = if portmix { 4 + rng.below(8) } else { 1 + rng.below(6) };
                     for _ in 0..nbatch {
